@@ -150,7 +150,11 @@ func (w *zzvWorld) pending() map[string]uint64 {
 // stepOracle is the "at every instant" clause: persisted + pending never
 // exceeds the increments begun, the file stays well-formed, values never
 // decrease.
-func (w *zzvWorld) stepOracle() {
+func (w *zzvWorld) stepOracle(kind string) {
+	// Only a step that writes can newly break the invariant.
+	if strings.HasPrefix(kind, "load") || kind == "lock" || kind == "once" || kind == "trylock" {
+		return
+	}
 	w.nsteps++
 	per, errs := w.persisted()
 	pend := w.pending()
